@@ -289,6 +289,10 @@ class Ctx:
             cmd += ["-race"]
         if buildmode:
             cmd += ["-buildmode=" + buildmode]
+        if os.environ.get("VERIF_COVER") and not race and not buildmode:
+            # bin/coverage: which statements of goom the drivers reach (a review aid, not part of any verdict)
+            cmd += ["-cover", "-coverpkg=github.com/tencent/goom,github.com/tencent/goom/arg,github.com/tencent/goom/erro,github.com/tencent/goom/internal/..."]
+            COVER_BINS.add(out)
         cmd.append("./" + pkg_rel if pkg_rel != "." else ".")
         rc, o = sh(cmd, cwd=REPO, env=goenv(extra_env), timeout=900)
         if rc != 0 or not os.path.exists(out):
@@ -303,6 +307,9 @@ class Ctx:
         if env:
             e.update(env)
         cmd = [binary, "-test.run", run, "-test.timeout", "%ds" % (timeout + 30), "-test.count=1"]
+        if os.environ.get("VERIF_COVER") and binary in COVER_BINS:
+            os.makedirs(os.environ["VERIF_COVER"], exist_ok=True)
+            cmd += ["-test.coverprofile", os.path.join(os.environ["VERIF_COVER"], "%s_%d.out" % (self.pid, int(time.time() * 1000) % 10 ** 9))]
         if args:
             cmd += args
         try:
@@ -313,6 +320,9 @@ class Ctx:
 
     def path(self, name):
         return os.path.join(self.scratch, name)
+
+
+COVER_BINS = set()
 
 
 # -------------------------------------------------------------------- known findings
